@@ -38,6 +38,49 @@ pub fn lead_byte_chars() -> Vec<char> {
     out
 }
 
+/// For a 2-, 3- and 4-byte char: the char followed by one partner per byte position whose encoding differs from it
+/// in exactly that byte (matchers that compare encodings byte by byte and skip one position confuse the two)
+pub fn one_byte_partner_sets() -> Vec<Vec<char>> {
+    let mut out = Vec::new();
+    for base in ['é', '个', '😀'] {
+        let mut buf = [0u8; 4];
+        let enc = base.encode_utf8(&mut buf).as_bytes().to_vec();
+        let mut set = vec![base];
+        for j in 0..enc.len() {
+            // flip one byte to a neighbouring value that keeps the encoding valid
+            for delta in [1i16, -1, 0x10, -0x10, 0x40 - 0x100] {
+                let mut e = enc.clone();
+                e[j] = (e[j] as i16 + delta).rem_euclid(256) as u8;
+                if let Ok(st) = std::str::from_utf8(&e) {
+                    let mut cs = st.chars();
+                    if let (Some(c), None) = (cs.next(), cs.next()) {
+                        if c != base && c.len_utf8() == enc.len() && !set.contains(&c) {
+                            set.push(c);
+                            break;
+                        }
+                    }
+                }
+            }
+        }
+        out.push(set);
+    }
+    out
+}
+
+/// strings of up to `max` chars over each partner set plus 'a'
+pub fn one_byte_partner_strings(max: usize) -> Vec<(Vec<char>, Vec<String>)> {
+    one_byte_partner_sets()
+        .into_iter()
+        .map(|set| {
+            let mut alpha: Vec<String> = set.iter().map(|c| c.to_string()).collect();
+            alpha.push("a".into());
+            let refs: Vec<&str> = alpha.iter().map(|x| x.as_str()).collect();
+            let strs = strings(&refs, max);
+            (set, strs)
+        })
+        .collect()
+}
+
 /// short strings around each char of `lead_byte_chars`: alone, next to ASCII, next to a 2-byte char, doubled,
 /// and next to its successor in the table
 pub fn lead_byte_strings() -> Vec<String> {
@@ -111,8 +154,23 @@ pub fn index_set(n: usize) -> Vec<usize> {
         usize::MAX - n,
         (usize::MAX - n).wrapping_add(1),
     ]);
+    // values congruent to a small (valid) index modulo 2^8 / 2^16 / 2^32: an index or length that is narrowed to a
+    // smaller integer type somewhere on the way turns these into in-range values
+    v.extend(congruent(n));
     v.sort_unstable();
     v.dedup();
+    v
+}
+
+/// `small + 2^k` for k in {8, 16, 32} (and 2^63) and small in {0, 1, n/2, n}: out of range for every container these
+/// engines build, in range after a truncating cast
+pub fn congruent(n: usize) -> Vec<usize> {
+    let mut v = Vec::new();
+    for k in [8u32, 16, 32, 63] {
+        for small in [0usize, 1, n / 2, n] {
+            v.push((1usize << k) + small);
+        }
+    }
     v
 }
 
